@@ -41,7 +41,10 @@ RULE = ('Hypothesis: FileSpec (1-5 dims of length 1-6, <=1 unlimited, 1-5 '
         'the variables without d - coordinate variables included - differ '
         'between the files, with coordinate keys declared by setCoords, by '
         'coordkeys= (stack_files), or implicitly by netcdf-class inputs '
-        '(stack_files on reopened pieces, the multi-file openers); split family: the result equals the '
+        '(stack_files on reopened pieces, the multi-file openers); in a '
+        'quarter of the cases with 2-4 inputs (half for the disk entries) the '
+        'same file object / path appears more than once in the argument list '
+        '(a,a,b / a,b,a,c / b,c,c) and every occurrence must contribute; split family: the result equals the '
         'original file field by field and result.sliceDimensions(d=slice(a,b))'
         ' equals each piece (unit-stride slices only).  Thorough tier also '
         '(and ~1/8 of the quick tier) runs core._functions.stack_files '
@@ -114,6 +117,7 @@ def cases(draw, tier='quick'):
         return dict(family='split', file=fs, dim=d, sizes=sizes, bare=bare,
                     entry=entry, names=draw(pathnames(k))
                     if entry != 'method' else None,
+                    order=draw(orders(k, entry)),
                     **draw(coordmodes(fs, d, entry)))
     k = draw(st.integers(2, 4))
     files = [fs]
@@ -127,7 +131,26 @@ def cases(draw, tier='quick'):
     bare = (k == 2 and draw(st.booleans()))
     return dict(family='indep', files=files, dim=d, bare=bare, entry=entry,
                 names=draw(pathnames(k)) if entry != 'method' else None,
+                order=draw(orders(k, entry)),
                 **draw(coordmodes(fs, d, entry)))
+
+
+@st.composite
+def orders(draw, k, entry):
+    """argument list as indices into the k distinct inputs; None = each
+    once, in order.  Otherwise the same file / path appears more than once
+    (a,a,b / a,b,a,c / b,c,c): every occurrence must contribute."""
+    if k < 2 or k > 4:
+        return None
+    if draw(st.integers(0, 7)) >= (4 if entry != 'method' else 2):
+        return None
+    order = list(range(k))
+    for i in range(draw(st.integers(1, 2))):
+        order.insert(draw(st.integers(0, len(order))),
+                     draw(st.integers(0, k - 1)))
+    if draw(st.integers(0, 3)) == 0:
+        order = order[1:]       # the first argument need not be input 0
+    return order
 
 
 @st.composite
@@ -210,11 +233,12 @@ def run_stack(r, case, files, d):
     from PseudoNetCDF import pncmfopen
     from PseudoNetCDF.core._files import netcdf
     paths = []
-    names = case.get('names') or ['p%03d' % i for i in range(len(files))]
+    ufiles = case.get('_ufiles') or files
+    names = case.get('names') or ['p%03d' % i for i in range(len(ufiles))]
     cdir = libstate.scratch_path('.d')
     os.makedirs(cdir)
     case['_cdir'] = cdir
-    for f, stem in zip(files, names):
+    for f, stem in zip(ufiles, names):
         p = os.path.join(cdir, stem + '.nc')
         ok, o = guard(r, 'save-raises',
                       lambda: f.save(p, format='NETCDF4_CLASSIC', verbose=0))
@@ -225,6 +249,9 @@ def run_stack(r, case, files, d):
         del o
         gc.collect()
         paths.append(p)
+    if case.get('_order'):
+        # the same path may be passed more than once
+        paths = [paths[i] for i in case['_order']]
     if entry == 'stack_files':
         # netcdf-class inputs: all pieces are open at once (as the
         # multi-file openers do), closed and collected afterwards
@@ -273,6 +300,16 @@ def check_case(case):
         for s in specs:
             edges.append(edges[-1] + A.dlen_of(s)[d])
         r.label('family:indep')
+    order = case.get('order')
+    uspecs = specs
+    if order:
+        specs = [uspecs[i] for i in order]
+        edges = [0]
+        for s in specs:
+            edges.append(edges[-1] + A.dlen_of(s)[d])
+        r.label('repeated-input')
+        if order[0] != 0:
+            r.label('first-argument-not-input-0')
     entry = case.get('entry', 'method')
     mode = case.get('coordmode', 'none')
     if entry == 'stack_files' and mode == 'netcdf' and \
@@ -289,7 +326,9 @@ def check_case(case):
     r.label('entry:' + entry, 'coordmode:' + mode)
     models = [S.model_of(s) for s in specs]
     m0 = models[0]
-    files = [S.build_file(s) for s in specs]
+    ufiles = [S.build_file(s) for s in uspecs]
+    files = [ufiles[i] for i in order] if order else ufiles
+    case = dict(case, _ufiles=ufiles, _order=order)
     if mode == 'setcoords':
         for f_ in files:
             f_.setCoords(list(case.get('ckeys') or []))
